@@ -348,6 +348,19 @@ func raceOne(m map[string]string) string {
 			}
 		}(g)
 	}
+	// a user who stops and starts the leecher every now and then: peers are closed while their snub timers fire
+	wg.Add(1)
+	go func() {
+		defer wg.Done()
+		for {
+			select {
+			case <-stop:
+				return
+			case <-time.After(120 * time.Millisecond):
+			}
+			call("PeriodicStopStart", func() { _ = lt.Stop(); time.Sleep(10 * time.Millisecond); _ = lt.Start() })
+		}
+	}()
 	time.Sleep(dur)
 	close(stop)
 	wg.Wait()
